@@ -22,6 +22,8 @@ Clauses (bands frozen in vlib/c10_band.json after calibration on the unchanged t
   A1  median over seeds of estimated / injected noise inside [0.5, 3.0]
   A2  (cells at the lowest noise level that have a bundled *_INVALID counterpart, same seeds)
       median over seeds of chi2(invalid) / chi2(valid) >= 5
+ unit twins ("<cell>x<a>"): the spectrum of a bundled circuit multiplied by a = 1e7 (CIRCUIT_8|9, which only the admittance
+      representation fits) or 1e-6 - the same valid spectrum in other units, same relative noise; clauses A0/A1 as for any cell
  history cells ("<cell>/after-session"): the >= 8 runs of a cell executed back to back in ONE process after a preamble of other
       spectra - the other bundled spectra with the SAME number of points (different window) in random order plus two arbitrary
       ones; ladder sessions use spectra that all have the same number of points but different windows.  The same A0-A2 clauses
@@ -57,7 +59,7 @@ RULE = (
     "circuits (R0 + 1..4 (RC)|(RQ) stages, time constants >= 0.6 decade apart inside the window, 4..7 decades at 10 points/"
     "decade; thorough also 'wide': up to 5 stages, 8|10|12 points/decade, time constants up to 0.1 decade from the window edge) "
     "passed to generate_mock_data as circuit description codes, every run a different circuit; the noise model is probed on all "
-    "35 bundled definitions x 4 levels x 8 (24) seeds; history cells: 2 bundled + 1 ladder session (thorough: 13 + 4) whose runs "
+    "35 bundled definitions x 4 levels x 8 (24) seeds; unit twins: 2 cells (thorough: 38) of a bundled spectrum x 1e7 | 1e-6; history cells: 2 bundled + 1 ladder session (thorough: 13 + 4) whose runs "
     "follow a preamble of same-length spectra with other windows in the same process. Every run executes the default "
     "perform_kramers_kronig_test(num_procs=1) with recorders on single.suggest_num_RC / suggest_representation. A run is "
     "non-trivial when the test returned a result and the limits were observed; distinct = distinct (identifier, noise, seed)."
@@ -264,6 +266,14 @@ def gen_cases(tier, seed):
             noise = NOISE_LEVELS[1 + (seed + j) % 3]
             for i, s in enumerate(_seeds(seed, (2, k, j), ns)):
                 cases.append(_mock_run(VALID[k], noise, s, explore=(i == 0)))
+        # unit twins: the spectrum of a bundled circuit multiplied by 1e7 (always CIRCUIT_8|9, which only the admittance
+        # representation can fit) and by 1e-6 (rotating circuit)
+        for j, (k, a) in enumerate([(7 + (seed + 1) % 2, 1e7), ((7 * seed + 2) % N_VALID, 1e-6)]):
+            noise = NOISE_LEVELS[1 + (seed + j) % 3]
+            for i, s in enumerate(_seeds(seed, (7, k, j), ns)):
+                c = _mock_run(VALID[k], noise, s, cell=f"{VALID[k]}@{noise:g}x{a:g}")
+                c["zscale"] = a
+                cases.append(c)
         # ladders: 2 (family, noise) cells, every run a different random circuit
         for j in range(2):
             fam = ["RC", "RQ", "mixed"][(seed + j) % 3]
@@ -282,6 +292,13 @@ def gen_cases(tier, seed):
                     cases.append(_mock_run(cid, noise, s, explore=(i % 6 == 0)))
                     if noise == LOWEST and k < N_DRIFT:
                         cases.append(_mock_run(cid, LOWEST, s, invalid=True, cell=f"{cid}_INVALID@{LOWEST:g}"))
+            # unit twins
+            for a in (1e7, 1e-6):
+                noise = NOISE_LEVELS[(k + seed + (a > 1)) % 4]
+                for i, s in enumerate(_seeds(seed, (7, k, int(a > 1)), ns2)):
+                    c = _mock_run(cid, noise, s, cell=f"{cid}@{noise:g}x{a:g}")
+                    c["zscale"] = a
+                    cases.append(c)
             # noise level anywhere in the quantifier's range
             rng = np.random.default_rng([seed, 10, 4, k])
             for i, s in enumerate(_seeds(seed, (4, k), ns2)):
@@ -344,6 +361,12 @@ def make_data(case):
     ideal = generate_mock_data(case["ident"], noise=0.0, **kw)
     if len(noisy) != 1 or len(ideal) != 1:
         raise RuntimeError(f"harness: identifier {case['ident']!r} matched {len(noisy)} definitions")
+    a = case.get("zscale")
+    if a:
+        # the same valid spectrum in other units (micro-ohm ... mega-ohm): relative noise and validity are unchanged
+        from pyimpspec import DataSet
+
+        return tuple(DataSet(d.get_frequencies(), d.get_impedances() * float(a), label=d.get_label()) for d in (noisy[0], ideal[0]))
     return noisy[0], ideal[0]
 
 
@@ -367,6 +390,8 @@ def run_one(case):
     pct = float(case["noise"])
     rec = {"cell": case["cell"], "family": case["family"], "base": case["base"], "ident": case["ident"], "invalid": bool(case["invalid"]),
            "noise": pct, "seed": int(case["seed"]), "n": int(len(f)), "kwargs": dict(case.get("kwargs") or {})}
+    if case.get("zscale"):
+        rec["zscale"] = float(case["zscale"])
     same_grid = len(Zn) == len(Zi) and np.array_equal(f, ideal.get_frequencies())
     if same_grid:
         rec["sums"] = _noise_sums(Zn, Zi, pct)
@@ -603,7 +628,8 @@ def _aggregate(items, planned_cells=None):
     for r in runs:
         cases_of.setdefault(r["cell"], []).append(
             {"kind": "run", "family": r["family"], "ident": r["ident"], "base": r["base"], "invalid": r["invalid"], "noise": r["noise"],
-             "seed": r["seed"], "kwargs": r.get("kwargs", {}), "cell": r["cell"], "explore": False})
+             "seed": r["seed"], "kwargs": r.get("kwargs", {}), "cell": r["cell"], "explore": False,
+             **({"zscale": r["zscale"]} if r.get("zscale") else {})})
     for cell, rs in cells.items():  # a history cell is replayed with its history
         if rs and rs[0].get("session"):
             cases_of[cell] = [rs[0]["session"]]
